@@ -210,6 +210,7 @@ fn scenario(agg: Agg, input: Vec<KV>, assign: Vec<usize>, p: u64, ts: bool, in_l
         shards: 1,
         nontrivial: input.len() >= 2,
         unbounded: false,
+        loop_body: false,
     }
 }
 
